@@ -1,11 +1,17 @@
 #!/bin/sh
-# Build the framework from files on disk only (offline): harness binary, translator output, Coq development.
+# Build the framework from files on disk only (offline): harness binary (drivers of the claimed
+# properties), translator output, Coq development of the claimed properties.
 set -e
 cd "$(dirname "$0")"
 export GOFLAGS=-mod=mod GOPROXY=off GOSUMDB=off GOTOOLCHAIN=local
 mkdir -p .work/bin coq/Gen evidence
 cp /repo/go.sum harness/go.sum
-(cd harness && go build -tags "verif all" -o ../.work/bin/harness .)
+IDS="$(cat checks/CLAIMED)"
+TAGS="verif $(echo $IDS | tr 'A-Z' 'a-z' | tr ' ' '\n' | sort | tr '\n' ' ')"
+TAGS="$(echo $TAGS)"
+(cd harness && go build -tags "$TAGS" -o ../.work/bin/harness .)
 ./.work/bin/harness gen -repo /repo -out coq/Gen > .work/gen.json
-(cd coq && timeout 3000 ./build.sh)
+TARGETS=""
+for i in $IDS; do TARGETS="$TARGETS Props/$i.vo Corr/$i.vo"; done
+(cd coq && timeout 3000 ./build.sh $TARGETS)
 echo setup ok
